@@ -43,7 +43,11 @@ def via_file(ds):
 banner('F-C20-1  bounds regex is not end-anchored (cli/utils.py bounds_re.match)')
 from emsarray.cli.utils import bounds_argument, geometry_argument  # noqa: E402
 for s in ['1.5,2.5,3.5,4.5', '0,0,1,1garbage', '1,2,3,4,5']:
-    print(repr(s), '->', bounds_argument(s).bounds, geometry_argument(s).bounds)
+    for fn in (bounds_argument, geometry_argument):
+        try:
+            print(repr(s), fn.__name__, '->', fn(s).bounds)
+        except Exception as e:
+            print(repr(s), fn.__name__, 'REJECTED', type(e).__name__)
 
 banner('F-C17-1  format_time_units_for_ems: signed divmod + variable width hour')
 from emsarray.utils import format_time_units_for_ems  # noqa: E402
